@@ -91,6 +91,9 @@ func collect(cur protoreflect.Message, path Path, depth int, out *[]Deviation) {
 				add(fd, "add-key-undeclared", "dev", func(m protoreflect.Message) {
 					m.Mutable(fd).Map().Set(protoreflect.ValueOfInt32(9999).MapKey(), protoreflect.ValueOfString("v-undeclared"))
 				})
+				add(fd, "add-key-empty-value", "dev", func(m protoreflect.Message) {
+					m.Mutable(fd).Map().Set(protoreflect.ValueOfInt32(6).MapKey(), protoreflect.ValueOfString(""))
+				})
 				add(fd, "add-key-negative", "dev", func(m protoreflect.Message) {
 					m.Mutable(fd).Map().Set(protoreflect.ValueOfInt32(-1).MapKey(), protoreflect.ValueOfString("v-negative"))
 				})
